@@ -19,11 +19,11 @@ from . import c16
 from .c14 import seam as pick_seam
 
 LEVEL = "model_checking"
-RULE = ("E2 (sequential): breadth-first search, depth 3, fresh import of joserfc per transition, over a menu of 44 operations on SHARED "
+RULE = ("E2 (sequential): breadth-first search, depth 2 (thorough 3), fresh import of joserfc per transition, over a menu of 76 operations on SHARED "
         "fixtures (cold Key objects from bytes / PEM / JWK, a cold KeySet, JWSRegistry / JWERegistry instances, the default registries, "
         "the built-in algorithm models): every observation (verdict, recovered content, reference-validated output, per-call fresh IV / "
         "CEK) must equal the isolation baseline of the same operation; states deduplicated by a canonical snapshot of every module-, "
-        "class- and fixture-level mutable. E3 (concurrent): all pairs over a 16-operation menu, two real threads under a controlled "
+        "class- and fixture-level mutable. E3 (concurrent): all pairs over an 18-operation menu (thorough: 32), two real threads under a controlled "
         "scheduler whose scheduling points are the executed source lines of joserfc (thorough: bytecodes in the files that hold "
         "shared state), all schedules with at most 1 preemption (thorough 2; three threads at bound 1); per schedule each thread's "
         "observation must equal its isolation baseline and the shared objects must end in a state some sequential order produces.")
